@@ -21,6 +21,7 @@ def data_of(v):
     return v[0] if has_ctx(v) else v
 
 
+BRANCH_NEST = [0]   # grouping used for Sequence-object branches of a Split (see build_stage "seqsum")
 NONE_D = -999    # spec/FlowSem.tla NoneD: the data value None
 
 
@@ -116,6 +117,9 @@ def build_stage(st, pairs=True, use_context_el=False):
             return lena.context.Context() if (pairs and use_context_el) else lena.flow.Print(transform=lambda x: "")
         if f == "var":
             return lena.variables.Variable("x", lambda d: d + 10)
+        if f == "varattr":
+            # description keys named like element methods are data attributes of the variable
+            return lena.variables.Variable("x", lambda d: num(d) + 10, run="2023A", fill=1, compute="c", request=0)
         if f == "upd":
             return lena.context.UpdateContext("k", 1)
         if f == "mkfn":
@@ -142,6 +146,11 @@ def build_stage(st, pairs=True, use_context_el=False):
         return lena.math.Sum()
     if t == "last":
         return Last()
+    if t == "seqsum":
+        # the branch (f, Sum()) as a Sequence object, in one of its groupings into nested Sequences
+        f, acc = _map_callable(st["f"]), lena.math.Sum()
+        S = lena.core.Sequence
+        return [S(f, acc), S(f, S(acc)), S(S(f), acc), S(S(f), S(S(acc)))][BRANCH_NEST[0] % 4]
     if t == "split":
         return lena.core.Split([build_stage(b, pairs, use_context_el) for b in st["brs"]], bufsize=st["bs"])
     if t == "bad":
@@ -215,7 +224,7 @@ def quiet_warnings():
 def random_stage(rnd, alphabet):
     k = rnd.choice(alphabet)
     if k == "map":
-        return {"t": "map", "f": rnd.choice(["inc", "dbl", "tag", "var", "upd", "mkfn", "id"])}
+        return {"t": "map", "f": rnd.choice(["inc", "dbl", "tag", "var", "varattr", "upd", "mkfn", "id"])}
     if k == "filter":
         return {"t": "filter", "p": rnd.choice(["even", "lt2", "none", "all"])}
     if k == "slice":
